@@ -14,6 +14,8 @@ from __future__ import annotations
 
 import itertools
 
+GEN_NOTE = (" Also judged by this property's oracle: the grammar-generated corpus shared by the bus properties (vsched/gen.py, DESIGN.md section 10: bus configuration x handler programs of a root event and of its child x time-out; every schedule with <= 1 deviation, thorough: <= 2 on the sub-grammar, <= 1 on the full grammar).")
+
 # programs of a handler of the root event P; {cb} = bus of the child
 P_PROGS = {
     'ret': [('ret', 1)],
